@@ -251,6 +251,17 @@ C17_Set ==
           /\ \A x \in vs, y \in Eligible(st') \ vs : st'.cands[y].total \preceq st'.cands[x].total
           /\ \A x \in vs : ValOf(st', x).stake = st'.cands[x].total,
           [at |-> Where, vals |-> ValNames(st'), eligible |-> [p \in Eligible(st') |-> st'.cands[p].total]])
+\* the stake figure that ranks a candidate is its real stake: after an update every base-coin stake is valued at what it holds now
+\* (an unbond or a move since the last update included) and a candidate's total is the sum of its stakes' values
+BaseOnly(cd) == \A x \in Range(cd.stakes) : x.c = Base
+C17_Totals ==
+   Clause("C17", "TotalStakeIsTheRealStake", Updated,
+          \A p \in DOMAIN st'.cands :
+             /\ \A x \in Range(st'.cands[p].stakes) : x.c = Base => x.bv = x.v
+             /\ st'.cands[p].total = SumOver(st'.cands[p].stakes, LAMBDA x : x.bv),
+          [at |-> Where, wrong |-> [p \in {q \in DOMAIN st'.cands : st'.cands[q].total # SumOver(st'.cands[q].stakes, LAMBDA x : x.bv)
+                                                              \/ \E x \in Range(st'.cands[q].stakes) : x.c = Base /\ x.bv # x.v}
+                                    |-> <<st'.cands[p].total, st'.cands[p].stakes>>]])
 SumTotals == SumOver(SetToSeq(ValNames(st')), LAMBDA p : st'.cands[p].total)
 PowerOf(p) == LET q == (st'.cands[p].total ** Nat2A(100000000)) // SumTotals IN IF q = Zero THEN One ELSE q
 C17_Power ==
@@ -344,7 +355,7 @@ C19_Emptied ==
           [at |-> Where, left |-> [i \in DOMAIN st'.vals |-> <<st'.vals[i].p, st'.vals[i].accum>>]])
 C19_PayoutStep == C19_Payout /\ C19_Emptied
 
-C17_Step == C17_Set /\ C17_Power /\ C17_Slots
+C17_Step == C17_Set /\ C17_Power /\ C17_Slots /\ C17_Totals
 
 StakingStep == C16_Step /\ C18_Step /\ C20_Step /\ C19_Step /\ C19_PayoutStep /\ C17_Step /\ C05_StakingStep
 =============================================================================
